@@ -8,6 +8,13 @@ Case = {"sink": "graph"|"ds"|"cg",
                                          the target through that document's marker triple); g may be "-"
                   "into": null | "iN" | "bK"   parse into that named graph of the dataset instead of the default graph
                   "style": {…}           writer choices (grouping, prefixes, anonymous-node spelling, bytes/str, publicID)
+                  "opts": {…}            (round g, optional) keyword arguments that change label handling:
+                                         "ctx": k    bnode_context=<the case's dict number k>   (nt, nquads)
+                                         "inst": k   the case's N-Quads parser object number k is used (its _bnode_ids lives on)
+                                         "sk": true  skolemize=True                              (nt, nquads, json-ld, hext)
+                                         "pre": true preserve_bnode_ids=True                     (xml, trix)
+                                         "nogen": true  generalized_rdf left off although the document has blank-node
+                                                        property keys (json-ld): those statements are dropped
                  }…],
         "fresh": k | null}               also parse document k into two fresh targets (iso + disjoint blank nodes)
 
@@ -45,23 +52,34 @@ CASES = {"quick": 3000, "thorough": 80000, "search": 20000}
 RULE = ("sequences of 2-4 documents in mixed syntaxes (nt, nquads, turtle, n3, trig, rdf/xml, trix, json-ld, hext) written "
         "by the harness' own writers and parsed, by every input route of parse(), into one Graph (Memory / SimpleMemory) / "
         "Dataset / ConjunctiveGraph that already has content (default graph, its Graph view, or a named graph, IRI- or "
-        "blank-node-named); non-trivial = some blank-node label string is used by two different parse calls or equals the "
+        "blank-node-named), a share of them with the keyword arguments that change label handling (bnode_context= dicts shared "
+        "between calls, one N-Quads parser object used again, skolemize=True, preserve_bnode_ids=True, JSON-LD blank-node "
+        "property keys without generalized_rdf) and, in N3, labels inside / outside / across formulae; non-trivial = some blank-node label string is used by two different parse calls or equals the "
         "id of a node already in the target; distinct = distinct (sink, init, formats, abstract documents); per-axis counts "
         "of the surface audit (design.d/C12.md) are the axis.* entries of generator_distribution")
 ASSUMPTIONS = ["BNode() ids (uuid4) differ from each other and from every id already present in the target (Lean: WF)",
-               "caller-requested sharing (bnode_context=, preserve_bnode_ids=True, skolemize=True) is outside the statement",
-               "N3: labels are not used inside formulae (N3 scopes _:x per formula); no variables / @forAll"]
+               "caller-requested sharing / naming (bnode_context=, one N-Quads parser object used again, preserve_bnode_ids=True, "
+               "skolemize=True) replaces the merge by exactly what was asked for (Lean: caller_shared_context_shares_exactly, "
+               "preserve_bnode_ids_is_verbatim, skolemize_no_blank_nodes); a bnode_context dict starts empty",
+               "N3 gives every formula occurrence { } its own label scope (what the code does, and N3's reading of _:x as an "
+               "existential of the formula): the oracle makes one node per (document, formula occurrence, label); "
+               "no variables / @forAll"]
 TRUSTED = ["harness/c12.py generators, harness/c12docs.py document writers (text is trusted to mean the abstract document)",
            "harness/c12.py canonical labelling (cross-checked on every case against harness/isoutil.iso)",
-           "lean/RV/C12/Drive.lean line protocol"]
+           "lean/RV/C12/Drive.lean line protocol",
+           "harness/c12.py _stmt_lines: the `{` / `}` events of an N3 document are derived from the abstract document the same "
+           "way the writer nests the text (a formula = the consecutive statements whose graph is its anonymous node)"]
 
 # label policy of each parser as the code stands: r = per-parse-call label map with fresh nodes (remap),
 # v = BNode(label) (verbatim).  TriX and JSON-LD were `v` before the repairs C12-F3/F4; the hextuples parser still
 # is (known finding C12-K1: rdflib's own tests pin BNode("graph-2") for the label `_:graph-2`).
-POLICY = {"nt": "r", "nquads": "r", "turtle": "r", "n3": "r", "trig": "r", "xml": "r", "trix": "r", "json-ld": "r",
+# Round g: documentation only — the model side is told the parser's *name* and runs that parser's own node function
+# (lean/RV/C12/Parsers.lean: nodeFn / n3Run); this table is `(loptsOf p default).pol`, proved there.
+POLICY ={"nt": "r", "nquads": "r", "turtle": "r", "n3": "r", "trig": "r", "xml": "r", "trix": "r", "json-ld": "r",
           "hext": "v"}
 
 DEFAULT = URIRef("urn:x-rdflib:default")
+GENID = "https://rdflib.github.io/.well-known/genid/rdflib/"     # BNode(label).skolemize()
 XSDNS = "http://www.w3.org/2001/XMLSchema#"
 H1, H2 = "5a6d0e1f3c2b4a79b8e0d1c2f3a4b5c6", "0f1e2d3c4b5a69788796a5b4c3d2e1f0"
 # label strings; label number K = index.  The same numbers name the blank nodes of the initial content (id = LAB[K]).
@@ -176,13 +194,15 @@ def _gen_style(rng, share=0.3):
     return st
 
 
-def _gen_doc(rng, sink, idx, pool, earlier, init_bn, share=0.3):
+def _gen_doc(rng, sink, idx, pool, earlier, init_bn, share=0.3, ctxcase=False):
     """abstract document for parse call #idx; `earlier` = [(I, [K…])] documents with marker triples"""
     quadfmt = sink not in PLAIN and rng.random() < 0.6
     fmt = rng.choice(D.QUAD_FMTS if quadfmt else D.TRIPLE_FMTS if sink != "simple" else SIMPLE_FMTS)
+    if ctxcase:                  # a case about bnode_context=: N-Triples / N-Quads documents
+        fmt = "nquads" if quadfmt else "nt"
     anon_ok = fmt in D.ANON_SO and rng.random() < 0.5
     # "counting" documents: all-digit labels next to several [] / ( ) nodes, in the syntaxes whose parser numbers its nodes
-    counting = any(k in DIGITS for k in pool) and rng.random() < 0.7
+    counting = any(k in DIGITS for k in pool) and rng.random() < 0.7 and not ctxcase
     if counting:
         fmt = rng.choice(N3_FAMILY if sink not in PLAIN else N3_FAMILY[:2] if sink == "graph" else N3_FAMILY[:1])
         quadfmt = fmt == "trig"
@@ -210,6 +230,23 @@ def _gen_doc(rng, sink, idx, pool, earlier, init_bn, share=0.3):
         return "l%d" % rng.choice(list(LITS))
 
     genrdf = fmt == "json-ld" and not counting and rng.random() < 0.4   # JSON-LD read with generalized_rdf=True
+    # keyword arguments that change label handling (round g): the sharing / naming the caller asks for
+    opts = {}
+    if fmt in ("nt", "nquads") and (rng.random() < 0.75 if ctxcase else rng.random() < share / 2):
+        opts["ctx"] = 1 if rng.random() < 0.75 else 2
+    if fmt == "nquads" and rng.random() < (0.5 if ctxcase else share / 3):
+        opts["inst"] = 1
+    if fmt in ("nt", "nquads", "json-ld", "hext") and not counting and rng.random() < share / 4:
+        opts["sk"] = True
+        anon_ok = False          # (a skolemized anonymous node is an IRI nobody can predict; not generated)
+        earlier = []             # (the IRI for a label that is a generated id has no name on the model side)
+        legal = [k for k in legal if k != EMPTY] or [0]    # (the stand-in node for "@id": "" is not a label: see design.d)
+    if fmt in ("xml", "trix") and rng.random() < share / 3:
+        opts["pre"] = True
+        earlier = []             # (BNode(<generated id>) is the earlier document's node: the oracle cannot name it)
+    if genrdf and rng.random() < 0.3:
+        opts["nogen"] = True
+        anon_ok = False          # (a dropped statement takes the node objects nested in it with it)
 
     def pred():
         if rng.random() < 0.08:
@@ -251,8 +288,17 @@ def _gen_doc(rng, sink, idx, pool, earlier, init_bn, share=0.3):
             f = "a%d" % nxt_anon[0]
             nxt_anon[0] += 1
             quads.append([f, pred(), obj(), g] if rng.random() < 0.5 else [subj(), pred(), f, g])
-            for _k in range(rng.randint(1, 2)):
-                quads.append(["i%d" % rng.choice(SUBJ_I), pred(), ground(), f])
+            # (round g) labels inside the formula: N3 gives a formula its own label scope — the same `_:x` inside,
+            # outside and in another formula are different nodes; inside one formula it is one node
+            inlab = rng.random() < 0.6
+
+            def isubj():
+                return lab() if inlab and rng.random() < 0.6 else "i%d" % rng.choice(SUBJ_I)
+
+            def iobj():
+                return lab() if inlab and rng.random() < 0.4 else ground()
+            for _k in range(rng.randint(1, 2) + (1 if inlab else 0)):
+                quads.append([isubj(), pred(), iobj(), f])
             if rng.random() < 0.25:          # a [] inside the formula
                 a = "a%d" % nxt_anon[0]
                 nxt_anon[0] += 1
@@ -260,8 +306,8 @@ def _gen_doc(rng, sink, idx, pool, earlier, init_bn, share=0.3):
             if rng.random() < 0.3:           # a nested formula, last
                 f2 = "a%d" % nxt_anon[0]
                 nxt_anon[0] += 1
-                quads.append(["i%d" % rng.choice(SUBJ_I), pred(), f2, f])
-                quads.append(["i%d" % rng.choice(SUBJ_I), pred(), ground(), f2])
+                quads.append([isubj(), pred(), f2, f])
+                quads.append([isubj(), pred(), iobj(), f2])
             continue
         if anon_ok and fmt in N3_FAMILY + ["xml", "json-ld"] and rng.random() < (0.3 if counting else 0.1):
             # a collection  s p ( x1 … xn )  =  n anonymous cells with rdf:first / rdf:rest
@@ -299,7 +345,9 @@ def _gen_doc(rng, sink, idx, pool, earlier, init_bn, share=0.3):
                 q[3] = "i21"
     # marker triples so that later documents can read this document's generated ids off the target
     marks = []
-    if rng.random() < 0.5:
+    if opts.get("nogen") and any(t == "n%d" % EMPTY or t[0] == "a" for q in quads for t in q):
+        del opts["nogen"]        # (the empty @id needs generalized_rdf; anonymous nodes: see above)
+    if rng.random() < 0.5 and not opts.get("sk"):
         named = sorted({int(t[1:]) for q in quads for t in q if re.fullmatch(r"n\d+", t)})
         dg = "-" if fmt not in D.NO_DEFAULT else "i20"
         for k in named[:2]:
@@ -308,7 +356,10 @@ def _gen_doc(rng, sink, idx, pool, earlier, init_bn, share=0.3):
     into = None
     if sink not in PLAIN and rng.random() < 0.3:
         into = rng.choice(["i20", "i21"] + init_bn[:2])
-    return {"fmt": fmt, "quads": quads, "into": into, "style": _gen_style(rng, share)}, marks
+    d = {"fmt": fmt, "quads": quads, "into": into, "style": _gen_style(rng, share)}
+    if opts:
+        d["opts"] = opts
+    return d, marks
 
 
 def gen_case(rng, tier, i):
@@ -340,6 +391,7 @@ def gen_case(rng, tier, i):
             init.append(q)
     init_bn = sorted({t for q in init for t in q if t.startswith("b")})
     docs, earlier = [], []
+    ctxcase = sink != "simple" and rng.random() < share / 3
     for idx in range(rng.randint(2, 4)):
         plain = [j for j, d0 in enumerate(docs) if not any(t.startswith("r") for q in d0["quads"] for t in q)]
         plain = [j for j in plain if len(_anon_terms(docs[j])) <= 4
@@ -353,12 +405,21 @@ def gen_case(rng, tier, i):
             fmt = src["fmt"] if rng.random() < 0.6 or not fmts else rng.choice(fmts)
             d = {"fmt": fmt, "quads": [list(q) for q in src["quads"]], "into": src["into"] if rng.random() < 0.7 else None,
                  "style": dict(src["style"]) if fmt == src["fmt"] else _gen_style(rng, share)}
+            if src.get("opts") and (fmt == src["fmt"] or (fmt in ("nt", "nquads") and set(src["opts"]) <= {"ctx"})):
+                d["opts"] = dict(src["opts"])
+            elif src.get("opts"):
+                d["fmt"], d["style"], d["opts"] = src["fmt"], dict(src["style"]), dict(src["opts"])
             docs.append(d)
             continue
-        d, marks = _gen_doc(rng, sink, idx, pool, earlier, init_bn, share)
+        d, marks = _gen_doc(rng, sink, idx, pool, earlier, init_bn, share, ctxcase)
         docs.append(d)
         if marks:
             earlier.append((idx, marks))
+    if any(d["fmt"] == "hext" for d in docs):
+        # hextuples keeps labels verbatim (known finding K1); next to a preserve_bnode_ids=True document the two would
+        # share nodes by id, and K1 would surface on a document that is not a hext document: not combined
+        for d in docs:
+            (d.get("opts") or {}).pop("pre", None)
     fresh = rng.randrange(len(docs)) if rng.random() < 0.5 else None
     return {"sink": sink, "init": init, "docs": docs, "fresh": fresh, "predict": rng.random() < 0.5, "union": union,
             "reuse": reuse}
@@ -446,6 +507,8 @@ def _abs_term(x):
         return "?" + x.n3()
     if x == DEFAULT:
         return "i0"
+    if str(x).startswith(GENID) and str(x)[len(GENID):] in LAB:
+        return "k%d" % LAB.index(str(x)[len(GENID):])       # skolem IRI of label number K (skolemize=True)
     if str(x) in RDF_IRI_REV:
         return "i%d" % RDF_IRI_REV[str(x)]
     m = re.fullmatch(r"http://e/i(\d+)", str(x))
@@ -464,8 +527,11 @@ FORMAT_NAME = {"nt": "nt", "nquads": "nquads", "turtle": "turtle", "n3": "n3", "
                "trix": "trix", "json-ld": "json-ld", "hext": "hext"}
 
 
-def _parse(target, kind, into_term, fmt, text, style, bnode_preds=False, plugins=None, stats=None):
-    """one parse call, by the route the style asks for"""
+def _parse(target, kind, into_term, fmt, text, style, bnode_preds=False, plugins=None, stats=None, opts=None, ctxs=None):
+    """one parse call, by the route the style asks for; opts = the keyword arguments that change label handling
+    (ctxs = the caller's bnode_context dicts of this case, by number)"""
+    opts = opts or {}
+
     def count(k):
         if stats is not None:
             stats["axis." + k] = stats.get("axis." + k, 0) + 1
@@ -489,9 +555,11 @@ def _parse(target, kind, into_term, fmt, text, style, bnode_preds=False, plugins
     if style.get("pub"):
         kw["publicID"] = "http://e/doc"
         count("publicID")
-    if fmt == "json-ld" and (bnode_preds or style.get("gen")):
+    if fmt == "json-ld" and (bnode_preds or style.get("gen")) and not opts.get("nogen"):
         kw["generalized_rdf"] = True         # blank nodes allowed in predicate position ("_:p": … property keys)
         count("jsonld.generalized_rdf")
+    if opts.get("nogen"):
+        count("options.blank_node_predicates_without_generalized_rdf")
     if style.get("defaults"):                # the label-handling options spelled out with their default values
         if fmt in ("xml", "trix"):
             kw["preserve_bnode_ids"] = False
@@ -503,6 +571,28 @@ def _parse(target, kind, into_term, fmt, text, style, bnode_preds=False, plugins
     if fmt == "json-ld" and style.get("jlopts"):
         kw.update(version=1.1, base="http://e/base/", context={"zz": "http://e/zz"})
         count("jsonld.version_base_context")
+    # ---- the sharing / naming the caller asks for (round g)
+    if opts.get("ctx") is not None and fmt in ("nt", "nquads") and ctxs is not None:
+        kw["bnode_context"] = ctxs.setdefault(opts["ctx"], {})      # the caller's own dict, handed to several calls
+        count("options.bnode_context")
+    if opts.get("sk") and fmt in ("nt", "nquads", "json-ld", "hext"):
+        kw["skolemize"] = True
+        count("options.skolemize")
+    if opts.get("pre") and fmt in ("xml", "trix"):
+        kw["preserve_bnode_ids"] = True
+        count("options.preserve_bnode_ids")
+    if opts.get("inst") is not None and fmt == "nquads" and plugins is not None:
+        # one NQuadsParser object used for several calls: its `_bnode_ids` lives as long as the object
+        key = ("nquads-object", opts["inst"])
+        inst = plugins.get(key)
+        if inst is None:
+            inst = plugins[key] = rdflib_plugin.get("nquads", RdflibParser)()
+        else:
+            count("options.nquads_parser_object_reused")
+        src = create_input_source(data=text, format="nquads", publicID=kw.pop("publicID", None))
+        kw.pop("format", None)
+        inst.parse(src, g.default_context if isinstance(g, ConjunctiveGraph) else g, **kw)
+        return
     if style.get("plugin") and plugins is not None and fmt != "nquads" and not guess:
         # one parser plugin object re-used for every document of that syntax in this case (Graph.parse makes a new one
         # per call; N-Quads is left out: W3CNTriplesParser documents its label scope as "per instance")
@@ -622,6 +712,18 @@ def _eff_into(case, doc):
     return into
 
 
+OPT_FMTS = {"ctx": ("nt", "nquads"), "inst": ("nquads",), "sk": ("nt", "nquads", "json-ld", "hext"), "pre": ("xml", "trix"),
+            "nogen": ("json-ld",)}
+
+
+def _eff_opts(doc):
+    """the label-handling options of the call, as far as the document's parser has them (shrinking may change fmt)"""
+    o = {k: v for k, v in (doc.get("opts") or {}).items() if doc["fmt"] in OPT_FMTS.get(k, ()) and v not in (None, False)}
+    if o.get("nogen") and not any(q[1][0] in "nr" for q in doc["quads"]):
+        del o["nogen"]
+    return o
+
+
 def _iso(a, b, stats=None):
     """isoutil.iso; when its search budget runs out (many interchangeable copies of one structure) fall back to the
     canonical labelling below — counted, so that it stays rare"""
@@ -697,6 +799,8 @@ def run_impl(case):
     obs, viol = [], []
     stats = {"docs": len(case["docs"]), "sink_" + kind: 1}
     plugins = {}                 # parser plugin objects shared by the documents of this case (style "plugin")
+    ctxs = {}                    # the caller's bnode_context dicts of this case, by number (opts "ctx")
+    shared_nodes = {}            # oracle: (dict or parser object, label) -> the one node the caller asked for
     stats["axis.target." + kind + ("_default_union" if case.get("union") else "")] = 1
     pi = _predict_target(case)
     if pi is not None:
@@ -738,10 +842,11 @@ def run_impl(case):
         text = D.write(fmt, cq, doc["style"])
         if case.get("reuse"):
             doc = {**doc, "style": {**doc["style"], "plugin": True, "route": None, "fmtarg": None}}
+        opts = _eff_opts(doc)
         before, _ = _quads_of(target)
         err = "ok"
         try:
-            _parse(target, kind, into, fmt, text, doc["style"], _bnode_preds(doc), plugins, stats)
+            _parse(target, kind, into, fmt, text, doc["style"], _bnode_preds(doc), plugins, stats, opts, ctxs)
         except core.CaseTimeout:
             raise
         except Exception as e:  # a valid document must parse
@@ -755,15 +860,33 @@ def run_impl(case):
         if dups:
             viol.append(f"dup: target yields duplicate quads after document {idx}")
         # ---- oracle 2: the target is the RDF merge
+        # (round g) … or, where the caller asked for it, exactly the requested sharing / naming: skolemize=True: the IRI
+        # genid/<label>; preserve_bnode_ids=True: BNode(label); bnode_context=ctx (or one N-Quads parser object used
+        # again): one node per (dict, label) for all the calls that were given that dict; JSON-LD without
+        # generalized_rdf: statements with a blank-node predicate are not part of the RDF the document stands for
         fresh = {}
         where = DEFAULT if into is None else into
+        scope = ("ctx", opts["ctx"]) if "ctx" in opts else ("inst", opts["inst"]) if "inst" in opts else None
         for q in cq:
+            # N3: a label written inside a formula belongs to that formula occurrence (its own scope)
+            fscope = q[3] if fmt == "n3" and q[3] is not None and q[3][0] == "a" else None
+
             def m(t):
                 if t[0] == "i":
                     return URIRef(t[1])
                 if t[0] == "l":
                     return Literal(t[1], lang=t[3], datatype=URIRef(t[2]) if t[2] else None)
+                if t[0] == "n" and fscope is not None:
+                    return fresh.setdefault((t, fscope), BNode("M%dxF%dn%s" % (idx, fscope[1], t[1])))
+                if t[0] == "n" and opts.get("sk"):
+                    return URIRef(GENID + t[1])
+                if t[0] == "n" and opts.get("pre"):
+                    return BNode(t[1])
+                if t[0] == "n" and scope is not None:
+                    return shared_nodes.setdefault((scope, t[1]), BNode("M%s%dx%s" % (scope[0], scope[1], t[1])))
                 return fresh.setdefault(t, BNode("M%dx%s%s" % (idx, t[0], t[1])))
+            if opts.get("nogen") and q[1][0] == "n":
+                continue
             merge.add((m(q[0]), m(q[1]), m(q[2]), where if q[3] is None else m(q[3])))
         if err == "ok" and not _iso(after, merge, stats):
             nb = len({x for q in after for x in q if isinstance(x, BNode)})
@@ -772,11 +895,29 @@ def run_impl(case):
                         f"and the document: {len(after)} quads / {nb} blank nodes, merge has {len(merge)} / {nm}; "
                         f"document: {text[:300]!r}")
             merge = set(after)      # judge the following documents against what is really there
+            for k, dct in ctxs.items():
+                for lab_, node in dct.items():
+                    shared_nodes[(("ctx", k), lab_)] = BNode(str(node))
+            for key, inst in plugins.items():
+                if isinstance(key, tuple) and key[0] == "nquads-object":
+                    for lab_, node in inst._bnode_ids.items():
+                        shared_nodes[(("inst", key[1]), lab_)] = BNode(str(node))
         ab = {tuple(_abs_term(x) for x in q) for q in after}
         nb = len({x for q in ab for x in q if isinstance(x, tuple)})
-        obs.append(f"{err} n={nb} " + canon(ab))
+        line = f"{err} n={nb} " + canon(ab)
+        if "ctx" in opts:           # what the call left in the caller's dict: its keys (label numbers; others counted)
+            keys = list(ctxs.get(opts["ctx"], {}))
+            small = sorted(LAB.index(k) for k in keys if k in LAB)
+            other = len(keys) - len(small)
+            line += " ctx=" + (",".join(map(str, small)) or "-") + (" +%d" % other if other else "")
+            bad = [k for k, v in ctxs.get(opts["ctx"], {}).items() if not isinstance(v, BNode)]
+            if bad:
+                viol.append(f"ctx-value: bnode_context[{bad[0]!r}] is not a BNode after document {idx}")
+        obs.append(line)
     # ---- oracle 3: the same document into two fresh targets
     fi = case.get("fresh")
+    if fi is not None and fi < len(case["docs"]) and set(_eff_opts(case["docs"][fi])) & {"ctx", "inst", "sk", "pre"}:
+        fi = None               # (requested sharing / naming: the two-fresh-targets clause is about the default behaviour)
     if fi is not None and fi < len(case["docs"]) and not any(t.startswith("r") for q in case["docs"][fi]["quads"] for t in q):
         doc = case["docs"][fi]
         cq, _ = _concrete_doc(case, fi, lambda i, k: "x")
@@ -787,7 +928,7 @@ def run_impl(case):
         for _ in range(2):
             t = _mk_sink(kind, case.get("union"))
             try:
-                _parse(t, kind, None, doc["fmt"], text, doc["style"], _bnode_preds(doc), plugins)
+                _parse(t, kind, None, doc["fmt"], text, doc["style"], _bnode_preds(doc), plugins, None, _eff_opts(doc))
             except Exception as e:
                 viol.append(f"parse-error: fresh target rejected document {fi}: {type(e).__name__}")
             res.append(_quads_of(t)[0])
@@ -795,12 +936,18 @@ def run_impl(case):
         b1 = {x for q in res[1] for x in q if isinstance(x, BNode)}
         alone, fr = set(), {}
         for q in cq:        # the document merged into nothing
+            fscope = q[3] if doc["fmt"] == "n3" and q[3] is not None and q[3][0] == "a" else None
+
             def m1(t):
                 if t[0] == "i":
                     return URIRef(t[1])
                 if t[0] == "l":
                     return _norm(Literal(t[1], lang=t[3], datatype=URIRef(t[2]) if t[2] else None))
+                if t[0] == "n" and fscope is not None:
+                    return fr.setdefault((t, fscope), BNode("FF%dn%s" % (fscope[1], t[1])))
                 return fr.setdefault(t, BNode("F%s%s" % (t[0], t[1])))
+            if _eff_opts(doc).get("nogen") and q[1][0] == "n":
+                continue
             alone.add((m1(q[0]), m1(q[1]), m1(q[2]), DEFAULT if q[3] is None else m1(q[3])))
         if not _iso(res[0], alone, stats):
             viol.append(f"fresh-merge: document {fi} ({doc['fmt']}) parsed into a fresh target does not give the document's "
@@ -847,6 +994,20 @@ def run_impl(case):
             stats["axis.rdf_type_statements"] = stats.get("axis.rdf_type_statements", 0) + 1
         if _has_formula(d["quads"]):
             stats["formula_docs"] = stats.get("formula_docs", 0) + 1
+            inner = {t for q in d["quads"] if q[3].startswith("a") for t in q[:3] if t[0] in "nr"}
+            outer = {t for q in d["quads"] if not q[3].startswith("a") for t in q[:3] if t[0] in "nr"}
+            if inner:
+                stats["formula_docs_with_label_inside"] = stats.get("formula_docs_with_label_inside", 0) + 1
+            if inner & outer:
+                stats["formula_label_inside_and_outside"] = stats.get("formula_label_inside_and_outside", 0) + 1
+            per = {}
+            for q in d["quads"]:
+                if q[3].startswith("a"):
+                    for t in q[:3]:
+                        if t[0] in "nr":
+                            per.setdefault(t, set()).add(q[3])
+            if any(len(v) > 1 for v in per.values()):
+                stats["formula_label_in_two_formulae"] = stats.get("formula_label_in_two_formulae", 0) + 1
         if any(t == "n%d" % EMPTY for q in d["quads"] for t in q):
             stats["empty_id_docs"] = stats.get("empty_id_docs", 0) + 1
         if any(q[1][0] in "nr" for q in d["quads"]):
@@ -854,6 +1015,15 @@ def run_impl(case):
             pl = {q[1] for q in d["quads"] if q[1][0] == "n"}
             if pl & {t for q in d["quads"] for t in (q[0], q[2], q[3])}:
                 stats["bnode_predicate_also_node"] = stats.get("bnode_predicate_also_node", 0) + 1
+    by_ctx = {}
+    for j, d in enumerate(case["docs"]):
+        o = _eff_opts(d)
+        if "ctx" in o or "inst" in o:
+            sc = ("ctx", o["ctx"]) if "ctx" in o else ("inst", o["inst"])
+            for t in {t for q in d["quads"] for t in q if t[0] in "nr"}:
+                by_ctx.setdefault((sc, t), set()).add(j)
+    if any(len(v) > 1 for v in by_ctx.values()):
+        stats["ctx_label_shared_between_calls"] = 1
     stats["same_doc_again"] = sum(1 for j, d in enumerate(case["docs"]) if any(d["quads"] == e["quads"] for e in case["docs"][:j]))
     return {"obs": obs, "viol": viol, "nontrivial": bool(shared),
             "key": repr((kind, case["init"], [(d["fmt"], d["quads"], d["into"]) for d in case["docs"]])),
@@ -938,26 +1108,63 @@ def model_lines(case):
             lines.append("init b%d i%d i1 i0" % (900 + j, PRED_I[2]))
     for idx, doc in enumerate(case["docs"]):
         into = _eff_into(case, doc) or "i0"
-        lines.append("doc %s %s" % (POLICY[doc["fmt"]], into))
-        for q in doc["quads"]:
-            lines.append("q " + " ".join(_model_term_doc(case, idx, t) for t in q))
+        # the parser by name: the model runs that parser's own node function (lean/RV/C12/Parsers.lean) with the options
+        o = _eff_opts(doc)
+        words = [w for w, k in (("sk", "sk"), ("pre", "pre")) if o.get(k)]
+        if doc["fmt"] == "json-ld" and (_bnode_preds(doc) or doc["style"].get("gen")) and not o.get("nogen"):
+            words.append("gen")
+        if "ctx" in o:
+            words.append("ctx=%d" % o["ctx"])
+        if "inst" in o:
+            words.append("inst=%d" % o["inst"])
+        lines.append(" ".join(["doc", doc["fmt"], into] + words))
+        lines += _stmt_lines(case, idx, doc)
         lines.append("end")
         lines.append("obs")
+        if "ctx" in o:
+            lines.append("ctx %d" % o["ctx"])
+    return lines
+
+
+def _stmt_lines(case, idx, doc):
+    """the statements of the document; N3: with the `{` / `}` events of the recursive descent around the statements of a
+    formula (= the consecutive statements whose graph is the formula's anonymous node; nested formulae nest)"""
+    lines, stack = [], []
+    for q in doc["quads"]:
+        if doc["fmt"] == "n3":
+            g = q[3]
+            if g.startswith("a"):
+                while stack and g in stack and stack[-1] != g:
+                    stack.pop()
+                    lines.append("close")
+                if g not in stack:
+                    stack.append(g)
+                    lines.append("open")
+            else:
+                while stack:
+                    stack.pop()
+                    lines.append("close")
+        lines.append("q " + " ".join(_model_term_doc(case, idx, t) for t in q))
+    lines += ["close"] * len(stack)
     return lines
 
 
 def select_model_obs(case, out):
     pi = _predict_target(case)
     res, k = [], 1 + len(case["init"]) + (len(_anon_terms(case["docs"][pi])) if pi is not None else 0)
-    for doc in case["docs"]:
-        k += 1 + len(doc["quads"]) + 1
+    for idx, doc in enumerate(case["docs"]):
+        k += 1 + len(_stmt_lines(case, idx, doc)) + 1
         line = out[k]
         k += 1
         quads = set()
         for w in line.split():
             quads.add(tuple(("b", t[1:]) if t[0] == "b" else t for t in w.split(",")))
         nb = len({x for q in quads for x in q if isinstance(x, tuple)})
-        res.append(f"ok n={nb} " + canon(quads))
+        r = f"ok n={nb} " + canon(quads)
+        if "ctx" in _eff_opts(doc):
+            r += " ctx=" + out[k]
+            k += 1
+        res.append(r)
     return res
 
 
@@ -1016,6 +1223,8 @@ def shrink(case):
                 yield {**case, "docs": docs[:i] + [nd] + docs[i + 1:]}
         if d["into"] is not None:
             yield {**case, "docs": docs[:i] + [{**d, "into": None}] + docs[i + 1:]}
+        for k in list(d.get("opts") or {}):
+            yield {**case, "docs": docs[:i] + [{**d, "opts": {a: b for a, b in d["opts"].items() if a != k}}] + docs[i + 1:]}
         if any(d["style"].values()):
             yield {**case, "docs": docs[:i] + [{**d, "style": {}}] + docs[i + 1:]}
     if case["sink"] == "cg":
